@@ -23,6 +23,7 @@ import XV.Driver.XsdValid
 import XV.Driver.Reader
 import XV.Driver.Hist
 import XV.Driver.Infoset
+import XV.Driver.Views
 open XV.Driver
 
 def main (args : List String) : IO UInt32 := do
@@ -68,5 +69,10 @@ def main (args : List String) : IO UInt32 := do
   | ["hist"] => lineLoop stdin stdout XV.Driver.Hist.handle; return 0
   | ["infoset"] => lineLoop stdin stdout XV.Driver.Infoset.handle; return 0
   | ["infonorm"] => lineLoop stdin stdout XV.Driver.Infoset.handleNorm; return 0
+  | ["views"] => lineLoopS stdin stdout (XV.Driver.Views.fresh XV.Driver.Views.cfgCode 0) (XV.Driver.Views.handle 0); return 0
+  | ["viewsfull"] => lineLoopS stdin stdout (XV.Driver.Views.fresh XV.Driver.Views.cfgCode 0) (XV.Driver.Views.handle 1); return 0
+  | ["viewsgen"] => XV.Driver.Views.loopFlush stdin stdout 2 (XV.Driver.Views.fresh XV.Driver.Views.cfgCode 0); return 0
+  | ["viewsspec"] => lineLoopS stdin stdout (XV.Driver.Views.fresh XV.Driver.Views.cfgSpec 0) (XV.Driver.Views.handle 0); return 0
+  | ["viewsspecfull"] => lineLoopS stdin stdout (XV.Driver.Views.fresh XV.Driver.Views.cfgSpec 0) (XV.Driver.Views.handle 1); return 0
   | ["utf8spec"] => lineLoop stdin stdout XV.Driver.Utf8.handleSpec; return 0
   | _ => IO.eprintln "usage: xvdriver <area>"; return 2
